@@ -2,7 +2,7 @@
 
 from __future__ import annotations
 
-from sa.common import fn_construct, terminal_statuses, trace_sig
+from sa.common import none_without_established_absence, fn_construct, terminal_statuses, trace_sig
 from sa.model import AnalysisError, load_program
 from sa.protocol import ABSENT, ProtocolModel, is_suspend, is_timed_suspend, user_events
 from sa.report import Check, main
@@ -104,6 +104,9 @@ def build() -> Check:
                         and v.parts[1].key() in ("callback.serdes", "global:context.PASS_THROUGH_SERDES"))
                     if not good:
                         bad.append((f"returns {v.key()} instead of the delivered payload", t))
+                    if none_without_established_absence(t):
+                        bad.append(("returns None for a succeeded callback without having established that no payload was delivered "
+                                    f"({'; '.join('%s->%s' % kv for kv in t.pc if 'result' in kv[0])}): an empty-string payload is not 'no payload'", t))
                 elif not des_failed:
                     bad.append((f"raises {t.exc_class()} for a succeeded callback", t))
             elif st in failure or st == ABSENT:
